@@ -198,7 +198,7 @@ func (l pathOrBase64List) Set(val string) error {
 	items := make([]string, 0, len(ss))
 	for i := 0; i < len(ss); i++ {
 		s := ss[i]
-		if s == "data:base64" && i+1 < len(ss) {
+		if (s == "data:base64" || s == "data://base64") && i+1 < len(ss) {
 			i++
 			s += "," + ss[i]
 		}
